@@ -1,6 +1,7 @@
 package main
 
 import (
+	"regexp"
 	"flag"
 	"fmt"
 	"os"
@@ -63,6 +64,8 @@ func usage() {
 }
 
 // cmdVerify: development entry: verify the named functions and print every obligation.
+var propScopeRe = regexp.MustCompile(`\[(C[0-9][0-9]):`)
+
 func cmdVerify(args []string) {
 	fs := flag.NewFlagSet("verify", flag.ExitOnError)
 	tmo := fs.Int("t", 10, "per-configuration solver timeout (s)")
@@ -194,11 +197,18 @@ func (V *Verifier) verifyFunctions(fns []*ssa.Function, lemmas []*Lemma, opt sol
 	for _, l := range lemmas {
 		res.Obls = append(res.Obls, V.encodeLemma(l)...)
 	}
-	if len(V.IgnoreKinds) > 0 {
+	if len(V.IgnoreKinds) > 0 || V.PropID != "" {
 		var kept []*Obligation
 		for _, o := range res.Obls {
 			if V.IgnoreKinds[o.Kind] {
 				res.Ignored++
+				continue
+			}
+			// a clause labelled [Cxx:...] is an obligation of property Cxx's check only; the
+			// other checks use it (assumed at call sites, as a loop invariant) and report it
+			if own := propScopeRe.FindStringSubmatch(o.Name); own != nil && V.PropID != "" && own[1] != V.PropID {
+				res.Ignored++
+				V.ForeignClauses[own[1]+": "+o.Func] = true
 				continue
 			}
 			kept = append(kept, o)
